@@ -113,7 +113,7 @@ def mutant(rng, spec):
 def generate(rng, tier):
     while True:
         pool = rng.choice(["int", "str", "str", "str", "adv"])
-        a = F.gen_fa(rng, max_states=4, pool=pool)
+        a = F.gen_fa(rng, max_states=(5 if tier == "thorough" and rng.random() < 0.25 else 4), pool=pool)
         r = rng.random()
         if r < 0.5:
             b = variant(rng, a)
